@@ -91,6 +91,49 @@ def canon_label(lbl):
   return f'{op} q1#{n - 1}'
 
 
+def hold_chooser(spec):
+  """WINDOW schedules: {kind:'hold', seed, hold: tid, at: label prefix, lead: k}.  The gap between a handler's unlocked
+  look at a flag / attribute and the lock acquisition that follows it is one pre-emption point (the thread is parked on
+  its pending `acquire`); this chooser makes "everybody else runs to completion inside the gap" a schedule that is
+  generated on purpose instead of waiting for the random choosers to find it:
+    phase 0  `lead` random steps of the other threads (what the server looks like when the request arrives);
+    phase 1  thread `hold` alone, until its pending operation's canonical label starts with `at` (it has done its unlocked
+             check and now asks for the lock) — or it ends;
+    phase 2  every OTHER thread, at random, until none of them can run (a shutdown / re-initialisation / stop runs to
+             completion inside the window);
+    phase 3  everybody, at random."""
+  rng = random.Random(spec['seed'])
+  hold, at, lead = spec['hold'], spec['at'], [spec.get('lead', 0)]
+  phase = [0]
+
+  def pending(sched, tid):
+    t = sched.threads[tid] if tid < len(sched.threads) else None
+    if t is None or t.done or t.pending is None:
+      return None
+    return canon_label(t.pending.label)
+
+  def inner(opts, sched):
+    tids = [t for t, _ in opts]
+    others = [i for i, t in enumerate(tids) if t != hold]
+    mine = [i for i, t in enumerate(tids) if t == hold]
+    if phase[0] == 0:
+      if lead[0] > 0 and others:
+        lead[0] -= 1
+        return rng.choice(others)
+      phase[0] = 1
+    if phase[0] == 1:
+      lbl = pending(sched, hold)
+      if lbl is not None and not lbl.startswith(at) and mine:
+        return mine[0]
+      phase[0] = 2
+    if phase[0] == 2:
+      if others:
+        return rng.choice(others)
+      phase[0] = 3
+    return rng.randrange(len(opts))
+  return inner
+
+
 def make_chooser(spec, record, state):
   """Wraps lib_queue-style choosers: the 60 s heartbeat time-out of the server's main loop is never
   taken (it only re-runs the statistics logging) and is not offered; when nothing else can run the
@@ -108,6 +151,8 @@ def make_chooser(spec, record, state):
       if w not in opts:
         raise shim.SchedulerError(f'schedule wants {w}, enabled {opts} at step {sched.steps}')
       return opts.index(w)
+  elif kind == 'hold':
+    inner = hold_chooser(spec)
   else:
     rng = random.Random(spec['seed'])
     inner = (shim.priority_chooser(rng, change_points=spec.get('changes', 3), horizon=spec.get('horizon', 150))
